@@ -643,3 +643,41 @@ def gen_visited_precallback(rng, tier):
                   f"runfrom {rng.choice(['dfs', 'bfs'])} {rng.choice(['full', 'partial'])} inv=none goal=noev prune=none collect=noev"]
         out.append((f"vp{i}", lines))
     return out
+
+
+IDENTITY_MARK = "# probe: identity"
+
+
+def identity_probe(v, tier, seed, name="identity_values", types=None):
+    """implementation only (`vh eqprobe`): the public value types the checker's state identity and its grouping of identical
+    messages are built from (DeliveryOptions, Message, McEvent) compare and hash by all their fields -- two values from a small
+    grid are equal iff all their fields are, equal values hash alike, and the total order on messages (keys of the ordered maps of
+    the dependency resolver) is consistent with equality"""
+    import subprocess
+    from .common import VH, ENV
+    out = subprocess.run([VH, "eqprobe"], capture_output=True, text=True, env=ENV, timeout=120).stdout.splitlines()
+    rows = [l for l in out if l.startswith("eqprobe ")]
+    nviol = 0
+    for l in rows:
+        ty = re.search(r"type=(\S+)", l).group(1)
+        if types and ty not in types:
+            continue
+        bad = l.split(" bad=", 1)[1]
+        if bad != "none":
+            nviol += 1
+            v.violation(f"{name}-{ty}.txt", f"# property {v.pid}: values of {ty} that differ in a field are treated as the same (or equal ones hash differently): {bad}\n"
+                        f"{IDENTITY_MARK}\n# replay: /verif/check {v.pid} --replay <this file>  (re-runs `vh eqprobe`)\n{l}\n")
+    if not rows:
+        nviol += 1
+        v.violation(f"{name}-norun.txt", f"# property {v.pid}: the identity probe produced no output\n{IDENTITY_MARK}\n")
+    v.coverage.setdefault(name, {}).update({"types": [l.split(" bad=")[0] for l in rows], "violations": nviol,
+        "rule": "implementation only: == / Hash / Ord of DeliveryOptions, Message, McEvent on value grids vs field-wise identity"})
+    return nviol
+
+
+def identity_replay(v, path):
+    class _V:
+        pid = v.pid; coverage = {}
+        def violation(self, nm, txt):
+            print(txt); v.violation("replay.txt", open(path).read())
+    identity_probe(_V(), "quick", 1)
